@@ -39,7 +39,7 @@ type RaceResult struct {
 // RunRace runs the workload un-serialised inside a bubble.
 func RunRace(t *testing.T, sp RaceSpec) (res *RaceResult) {
 	res = &RaceResult{}
-	stopWD := simrt.Watchdog(120*time.Second, func() string { return "harness.RunRace" })
+	stopWD := simrt.Watchdog(300*time.Second, func() string { return "harness.RunRace" })
 	defer stopWD()
 	defer func() {
 		if r := recover(); r != nil {
